@@ -79,7 +79,7 @@ def toml_str(s: str) -> str:
 def legacy_pyproject(deps: list[dict[str, Any]], project_extras: list[str], python: str) -> str:
     lines = ['[tool.poetry]', 'name = "demo"', 'version = "1.0"', 'description = "d"', 'authors = ["A <a@example.com>"]', "",
              "[tool.poetry.dependencies]", f"python = {toml_str(python)}"]
-    for d in deps:
+    def table(d: dict[str, Any]) -> str:
         items = [f"version = {toml_str(d['version'])}"]
         for k in ("python", "platform", "markers"):
             if k in d:
@@ -88,11 +88,19 @@ def legacy_pyproject(deps: list[dict[str, Any]], project_extras: list[str], pyth
             items.append("extras = [" + ", ".join(toml_str(e) for e in d["extras"]) + "]")
         if d.get("optional"):
             items.append("optional = true")
-        lines.append(f"{toml_str(d['name'])} = {{ " + ", ".join(items) + " }")
+        return "{ " + ", ".join(items) + " }"
+    names: list[str] = []
+    for d in deps:
+        if d["name"] not in names:
+            names.append(d["name"])
+    for n in names:
+        group = [d for d in deps if d["name"] == n]
+        # several entries under one name = poetry's "multiple constraints" dependency: a list of tables
+        lines.append(f"{toml_str(n)} = " + (table(group[0]) if len(group) == 1 else "[" + ", ".join(table(d) for d in group) + "]"))
     if project_extras:
         lines += ["", "[tool.poetry.extras]"]
         for e in project_extras:
-            members = [d["name"] for d in deps if e in d.get("in_extras", [])]
+            members = [n for n in names if any(e in d.get("in_extras", []) for d in deps if d["name"] == n)]
             lines.append(f"{toml_str(e)} = [" + ", ".join(toml_str(m) for m in members) + "]")
     lines += ["", "[build-system]", 'requires = ["poetry-core"]', 'build-backend = "poetry.core.masonry.api"', ""]
     return "\n".join(lines)
@@ -166,20 +174,47 @@ def run_projects(ctx: core.Ctx, projects: list[dict[str, Any]], stream: str) -> 
                     for e, (tv, _pv) in zip(envs, r[1] if r[0] == "ok" else [[None, None]] * len(envs)):
                         mk_bits[d["markers"] + "\0" + G.enc_env(e)] = tv
             lines = list(meta.requires_dist)
+            done_names: set[str] = set()
             for d in pr["deps"]:
-                c = parse_constraint(d["version"])
+                if d["name"] in done_names:
+                    continue
+                done_names.add(d["name"])
+                group = [x for x in pr["deps"] if x["name"] == d["name"]]      # > 1: a multiple-constraints dependency
+                bnds = [b for x in group for b in V.bounds(parse_constraint(x["version"]))]
                 cands = []
-                for t in V.probe_strings(ctx.rng, [b.text for b in V.bounds(c)], n_extra=4)[:14]:
+                for t in V.probe_strings(ctx.rng, [b.text for b in bnds], n_extra=4)[:14 if len(group) == 1 else 20]:
                     pv = V.parse_probe(t)
-                    if pv is not None and not pv.is_local():
+                    if pv is not None and not pv.is_local() and (len(group) == 1 or V.is_regular(pv, bnds)):
                         cands.append(pv)
                 cases = [[cv.text, e] for cv in cands[:8] for e in envs[:10]]
                 mine = [ln for ln in lines if canonicalize_name(ln.split(";")[0].split("(")[0].split("[")[0].split("@")[0].strip().split(" ")[0]) == canonicalize_name(d["name"])]
-                plan.append((pr, d, mine, cases, mk_bits))
+                plan.append((pr, d, mine, cases, mk_bits, group))
                 for ln in mine:
                     reqs.append({"op": "reqtok", "s": ln, "cases": cases})
         res = iter(MC.ref_batch(reqs)) if reqs else iter([])
-        for pr, d, mine, cases, mk_bits in plan:
+        for pr, d, mine, cases, mk_bits, group in plan:
+            if len(group) > 1:
+                # multiple constraints: SOME line selects the candidate exactly when SOME entry of the declaration does
+                ctx.case("dm:" + repr([sorted(x.items()) for x in group]), nontrivial=True, sample={"declared": group, "requires_dist": mine})
+                ctx.count("dep:multiple-constraints:" + ("same-version" if len({x["version"] for x in group}) == 1 else "other-version"))
+                wit = {"toml": pr["toml"], "dep": d["name"]}
+                rs = [next(res) for _ in mine]
+                bad = [(ln, r) for ln, r in zip(mine, rs) if r[0] != "ok"]
+                if bad:
+                    ctx.violate(f"ref-rejects:{bad[0][0]}", f"Requires-Dist {bad[0][0]!r} (from {group}) is rejected by the reference parser: {bad[0][1]}", wit)
+                    continue
+                for k, (vt, e) in enumerate(cases):
+                    wants = [expected_selected(x, Version.parse(vt), e, mk_bits) for x in group]
+                    gots = [r[3][k] for r in rs]
+                    if any(w is None for w in wants) or any(not isinstance(g, bool) for g in gots):
+                        continue
+                    if any(wants) != any(gots):
+                        key = KNOWN_SINGLE if any("python" in x and short_single(x["python"]) for x in group) else f"selection-multi:{group}"
+                        ctx.violate(key, f"declared {group} -> {mine}: reference selects={any(gots)} for version {vt} on py={e['python_full_version']} "
+                                         f"platform={e['sys_platform']} extras={e['extra']}, the declaration says {any(wants)}", {**wit, "version": vt, "env": e})
+                        break
+                    ctx.count("oracle:compared-multi")
+                continue
             cond = any(k in d for k in ("python", "platform", "markers", "optional"))
             ctx.case("d:" + repr(sorted(d.items())), nontrivial=cond,
                      sample={"declared": d, "requires_dist": mine} if cond else None)
@@ -258,7 +293,9 @@ def model_correspondence(ctx: core.Ctx, built: list[tuple[dict[str, Any], Any]],
             in_ex = [e for e in pr["extras"] if e in d.get("in_extras", [])]
             lines.append(core.line("dep02", d["name"], d["version"], opt(d.get("python")), opt(d.get("platform")), opt(d.get("markers")),
                                    ",".join(d.get("extras", [])), "1" if d.get("optional") else "0", ",".join(in_ex), *eenc))
-            real = next((x for x in (pkg.requires if pkg is not None else []) if x.name == canonicalize_name(d["name"])), None)
+            same = [x for x in (pkg.requires if pkg is not None else []) if x.name == canonicalize_name(d["name"])]
+            k = sum(1 for d0 in pr["deps"][: pr["deps"].index(d)] if d0["name"] == d["name"])     # k-th entry under that name
+            real = same[k] if k < len(same) else None
             plan.append(("dep", pr, d, real, envs[:10], meta))
         if "python" in pr:
             lines.append(core.line("pyfmt", pr["python"]))
@@ -331,6 +368,23 @@ def gen_project(rnd: Any) -> dict[str, Any]:
             continue
         seen.add(d["name"].lower())
         deps.append(d)
+    if rnd.random() < 0.3:
+        # a "multiple constraints" dependency: two entries under one name that differ in their condition; the same version
+        # range more often than not (then the two objects are equal under Dependency.__eq__, which ignores the condition)
+        a = gen_dep(rnd, extras)
+        while a["name"].lower() in seen:
+            a["name"] = rnd.choice(NAMES) + str(rnd.randint(10, 99))
+        b = gen_dep(rnd, extras)
+        b["name"] = a["name"]
+        if rnd.random() < 0.6:
+            b["version"] = a["version"]
+        for k in ("optional", "in_extras", "extras"):
+            b.pop(k, None)
+            if k in a:
+                b[k] = a[k]
+        pa, pb = rnd.sample(["<3.9", ">=3.9,<3.11", ">=3.11", "~3.8", "^3.10"], 2)
+        a["python"], b["python"] = pa, pb
+        deps += [a, b]
     used = [e for e in extras if any(e in d.get("in_extras", []) for d in deps)]
     for d in deps:
         if "in_extras" in d:
